@@ -2,6 +2,7 @@ package arkx
 
 import (
 	"fmt"
+	"sync"
 
 	"github.com/mlange-42/ark/ecs"
 )
@@ -9,13 +10,22 @@ import (
 // Method-level API coverage: every typed wrapper handed out by the executor is decorated so that each call is
 // counted under "<Type><arity>.<Method>" (C14 requires every generated variant to be exercised).
 
+// (queries are created from several goroutines in the concurrency runs)
+var covMu sync.Mutex
+
+func covHit(c map[string]int, k string) {
+	covMu.Lock()
+	c[k]++
+	covMu.Unlock()
+}
+
 type covMap struct {
 	TypedMap
 	c map[string]int
 	p string
 }
 
-func (m covMap) hit(s string) { m.c[m.p+"."+s]++ }
+func (m covMap) hit(s string) { covHit(m.c, m.p+"."+s) }
 func (m covMap) NewEntity(vals []int64, rels []ecs.Relation) ecs.Entity {
 	m.hit("NewEntity")
 	return m.TypedMap.NewEntity(vals, rels)
@@ -75,7 +85,7 @@ type covEx struct {
 	p string
 }
 
-func (m covEx) hit(s string) { m.c[m.p+"."+s]++ }
+func (m covEx) hit(s string) { covHit(m.c, m.p+"."+s) }
 func (m covEx) Add(e ecs.Entity, vals []int64, rels []ecs.Relation) {
 	m.hit("Add")
 	m.TypedExchange.Add(e, vals, rels)
@@ -120,7 +130,7 @@ type covFilter struct {
 	p string
 }
 
-func (m covFilter) hit(s string) { m.c[m.p+"."+s]++ }
+func (m covFilter) hit(s string) { covHit(m.c, m.p+"."+s) }
 func (m covFilter) Register()    { m.hit("Register"); m.TypedFilter.Register() }
 func (m covFilter) Unregister()  { m.hit("Unregister"); m.TypedFilter.Unregister() }
 func (m covFilter) Relations(rels ...ecs.Relation) {
